@@ -440,8 +440,9 @@ impl Format for Mpq {
                     rec.note("mpq_bytes_read", d.len() as u64);
                 }
             }
-            // quick: every listed entry only on the unmodified seed, the first entry on deviated inputs
-            for e in listed.iter().take(if crate::thorough() || input == &seed.bytes[..] { 8 } else { 1 }) {
+            // every listed entry on the unmodified seed and in the thorough 1-deviation classes, else the first
+            let all = input == &seed.bytes[..] || (crate::thorough() && !crate::LIGHT.load(std::sync::atomic::Ordering::Relaxed));
+            for e in listed.iter().take(if all { 8 } else { 1 }) {
                 if let Some((hi, bi)) = e.table_indices {
                     let _ = rec.leaf("Archive::read_file_by_indices", || a.read_file_by_indices(hi, bi));
                 }
